@@ -394,6 +394,11 @@ class _IntMeta(type):
 class SInt(metaclass=_IntMeta):
     """stands for `int` in a repo module namespace"""
 
+    @staticmethod
+    def from_bytes(b, byteorder='big', **kw):
+        from .ghosts import ghost_int_from_bytes
+        return ghost_int_from_bytes(b, byteorder)
+
 
 def real(name):
     return Sym(z3.Real(name))
